@@ -138,6 +138,38 @@ class C13(XsProp):
                 '%s %s insert-tag tags' % (x, k), '{ %s %s } with-tags tags' % (x, k), '%s %s insert-tag dup drop' % (x, k),
                 '%s %s insert-tag 9 "other" insert-tag %s get-tag' % (x, k, k)])
             cs.append('xs limits 3000 200 - | push %s | eval %s | stack' % (cells.fmt(v), hexsrc(prog)))
+        # the tag words against a dictionary model: random sequences of insert-tag / remove-tag (present and absent keys) / with-tags
+        # on one value; at the end `tags` and every `get-tag` must be what the dictionary says, and the value itself is unchanged
+        self.tagmodel = {}
+        keys = ['"a"', '"b"', '"k"', '"len"', '"zz"']
+        for _ in range(150 if tier == 'quick' else 3000):
+            val = rng.choice(['5', '"s"', '[ 1 2 ]', 'nil', '1.5', '|ff|'])
+            model = None
+            src = [val]
+            for _ in range(rng.randint(1, 6)):
+                r = rng.random()
+                k = rng.choice(keys)
+                if r < 0.45:
+                    v = rng.randint(0, 99)
+                    src.append('%d %s insert-tag' % (v, k))
+                    model = dict(model or {})
+                    model[k] = v
+                elif r < 0.8:
+                    src.append('%s remove-tag' % k)
+                    model = dict(model or {})
+                    model.pop(k, None)
+                else:
+                    ks = rng.sample(keys, rng.randint(0, 3))
+                    model = {kk: rng.randint(0, 99) for kk in ks}
+                    src.append('{ %s } with-tags' % ' '.join('%d %s' % (model[kk], kk) for kk in ks))
+            probe = rng.choice(keys)
+            src.append('dup tags swap dup %s get-tag swap drop' % probe)
+            case = 'xs limits 3000 200 - | eval %s | stack' % hexsrc(' '.join(src))
+            cs.append(case)
+            ent = sorted((kk.strip('"').encode(), vv) for kk, vv in (model or {}).items())
+            want_tags = 'N' if model is None else 'M(' + ','.join('S%s=I%x' % (kb.hex(), vv) for kb, vv in ent) + ')'
+            want_get = 'I%x' % model[probe] if model and probe in model else 'N'
+            self.tagmodel[case] = (want_tags, want_get, ' '.join(src))
         # the tag map stays attached when the value crosses the build-time boundary: left by a meta block, bound by `const`, or both
         self.attach = set()
         tagged_src = ['5 ^{ 1 "k" ^}', '"ff" ^hex', 'nil 1 "k" insert-tag', '[ 1 ] ^{ 2 "k" ^}', '1.5 ^{ 1 "k" ^}', 'true 7 "k" insert-tag',
@@ -162,6 +194,14 @@ class C13(XsProp):
                 n += 1
                 fails.append(('case: %s\nword: %s\nresult: %s' % (c, src_of(c)[0], o[:400]),
                               'word %s panicked on one of the two argument lists (with / without tags)' % src_of(c)[0]))
+                continue
+            if c in getattr(self, 'tagmodel', ()):
+                n += 1
+                want_tags, want_get, src = self.tagmodel[c]
+                got = [t for t in ou[-1].strip('[] ').split(' ') if t]
+                if ou[-2] != 'ok' or got != [want_tags, want_get]:
+                    fails.append(('case: %s\nsource: %s\nresult: %s' % (c, src, o[:400]),
+                                  'the tag words do not behave as a map attached to the value: expected tags %s and get-tag %s, got %s' % (want_tags, want_get, got)))
                 continue
             if len(st) != len(ou) or 'use 1' not in st:
                 continue
